@@ -167,6 +167,9 @@ JSisHash(e) ==
 
 Judge(e) ==
   CASE e.op = "Params"   -> JParams(e)
+    \* GetConstants: the documented round constants (as integers below q), a copy on every call
+    [] e.op = "MimcConstants" -> IF Panicked(e) THEN {"panic"}
+                                 ELSE Rsn(e.cs # MiMCcs, "constants") \cup Rsn(e.cs2 # e.cs, "shared-constants")
     [] e.op = "New"      -> Rsn(Panicked(e), "panic")
     [] e.op = "Write"    -> JWrite(e)
     [] e.op = "Sum"      -> JSum(e)
